@@ -110,6 +110,8 @@ def gen_namespaces(rng, tamed):
         if r < 0.6:
             p = rng.choice(NS_PREFIXES)
             u = rng.choice(URIS[:4] if tamed else URIS)
+            if rng.random() < 0.04:
+                u = rng.choice(RESERVED_NS)
             q = rng.choice(["", '"', "'"])
             items.append(f"{p}={q}{u}{q}")
             if "=" not in u:
@@ -154,7 +156,7 @@ def gen_value(rng, canon, tamed, knobs):
     if canon == "style":
         return rng.choice(["pages", "theme-grid", "pages theme-grid"]) if r < 0.5 else t(3)
     if canon == "instance_xmlns":
-        return rng.choice(URIS[:4] if tamed else URIS)
+        return rng.choice(RESERVED_NS) if r < 0.04 else rng.choice(URIS[:4] if tamed else URIS)
     if canon == "clean_text_values":
         return rng.choice(YES[:3] + NO[:3] + ["maybe"])
     if canon == "allow_choice_duplicates":
@@ -613,7 +615,8 @@ def spec_call(ctx, case, obs):
 NCNAME = re.compile(r"[A-Za-z_\u00c0-\u00d6\u00d8-\u00f6\u00f8-\u02ff\u0370-\u037d\u037f-\u1fff\u3001-\ud7ff]"
                     r"[-.0-9A-Za-z_\u00b7\u00c0-\u00d6\u00d8-\u00f6\u00f8-\u02ff\u0300-\u037d\u037f-\u1fff\u3001-\ud7ff]*")
 XML_BAD = re.compile("[^\t\n\r\u0020-\ud7ff\ue000-\ufffd\U00010000-\U0010ffff]")
-XML_ERR_MARKS = ("is not a valid XML name", "is not declared", "Invalid namespace declaration", "which is not allowed in XML")
+XML_ERR_MARKS = ("is not a valid XML name", "is not declared", "Invalid namespace declaration", "which is not allowed in XML",
+                 "uses the reserved prefix")
 
 
 def declared_namespaces(ns: str):
@@ -651,6 +654,11 @@ def xml_problem(case):
     names += [n for n, c in (("version", "version"), ("xmlns", "instance_xmlns"), ("odk:prefix", "prefix"),
                              ("odk:delimiter", "delimiter")) if intended.get(c)]
     maybe = None
+    # a reserved namespace name (xml / xmlns namespaces) must not be declared: rejected by trees that carry
+    # C01's reserved-names check, written out by older ones — C01 decides, here only a possible reason
+    if any(u in RESERVED_NS for u in decl.values()) or intended.get("instance_xmlns") in RESERVED_NS or any(
+            k == "xmlns" and v in RESERVED_NS for k, v in case["attribute"]):
+        maybe = "?reserved namespace name"
     for k, v in case["attribute"]:
         collides = any(n != k and local_name(n) == local_name(k) for n in names)
         parts = k.split(":")
